@@ -57,8 +57,12 @@ impl<T> From<SendError<T>> for HErr {
     #[verifier::external_body]
     fn from(e: SendError<T>) -> HErr { HErr { k: 0 } }
 }
-#[verifier::external_body]
-pub struct LinesCodecError { x: u8 }
+pub struct IoError { pub k: u8 }
+pub enum LinesCodecError { MaxLineLengthExceeded, Io(IoError) }
+impl From<IoError> for HErr {
+    #[verifier::external_body]
+    fn from(e: IoError) -> HErr { HErr { k: 0 } }
+}
 impl From<LinesCodecError> for HErr {
     #[verifier::external_body]
     fn from(e: LinesCodecError) -> HErr { HErr { k: 0 } }
